@@ -901,19 +901,6 @@ Proof.
     rewrite par_set_par. destruct (n =? v); [|auto]. right. right. exists ir. auto.
 Qed.
 
-Lemma ml_insert_mq : forall w ir i v, kindof w v = KMod -> kindof w ir = KIR -> ModParOK w ->
-  mq w (fst (ml_insert w ir i v)).
-Proof.
-  intros w ir i v Kv Ki M. unfold ml_insert.
-  pose proof (ml_add_hook_mq w ir v Kv Ki M) as M1. destruct (ml_add_hook w ir v) as [w1 ok]. cbn [fst] in *.
-  eapply mq_trans; [exact M1|]. apply mq_set_kids.
-  destruct M1 as (A & _). rewrite (attr_kindof _ _ _ (A ir)). exact Ki.
-Qed.
-
-Lemma ml_append_mq : forall w ir v, kindof w v = KMod -> kindof w ir = KIR -> ModParOK w ->
-  mq w (fst (ml_append w ir v)).
-Proof. intros. unfold ml_append. apply ml_insert_mq; assumption. Qed.
-
 (* invariant carried through folds of module-list hooks *)
 Definition MI (w w' : world) : Prop := mq w w' /\ ModParOK w'.
 
@@ -938,33 +925,6 @@ Lemma forest_modpar : forall w known, Forest w known -> ModParOK w.
 Proof.
   intros w known F v old Kv Pv. destruct (f_kind w known F old v Pv) as (_ & _ & Hk).
   rewrite Kv in Hk. cbn in Hk. injection Hk as Hk. symmetry. exact Hk.
-Qed.
-
-Lemma mod_append_mq : forall w ir v, ModParOK w -> is_k w ir KIR = true -> is_k w v KMod = true ->
-  MI w (ret w (flagged (ml_append w ir v))).
-Proof.
-  intros w ir v M Ki Kv. apply is_k_kind in Ki. apply is_k_kind in Kv.
-  apply ret_flagged; [apply MI_refl; exact M|].
-  eapply MI_step; [apply MI_refl; exact M|]. apply ml_append_mq; assumption.
-Qed.
-
-Lemma mod_insert_mq : forall w ir i v, ModParOK w -> is_k w ir KIR = true -> is_k w v KMod = true ->
-  MI w (ret w (flagged (ml_insert w ir i v))).
-Proof.
-  intros w ir i v M Ki Kv. apply is_k_kind in Ki. apply is_k_kind in Kv.
-  apply ret_flagged; [apply MI_refl; exact M|].
-  eapply MI_step; [apply MI_refl; exact M|]. apply ml_insert_mq; assumption.
-Qed.
-
-Lemma fold_append_MI : forall w ir vs, ModParOK w -> kindof w ir = KIR ->
-  (forall v, In v vs -> kindof w v = KMod) ->
-  MI w (fst (fold_ok (fun w v => ml_append w ir v) vs w)).
-Proof.
-  intros w ir vs M Ki Kv. apply fold_ok_inv; [|apply MI_refl; exact M].
-  intros w' v Hv HI. eapply MI_step; [exact HI|]. apply ml_append_mq.
-  - rewrite (MI_kind w w' v HI). apply Kv. exact Hv.
-  - rewrite (MI_kind w w' ir HI). exact Ki.
-  - destruct HI as [_ P]. exact P.
 Qed.
 
 Lemma fold_add_hook_MI : forall w0 w ir vs, MI w0 w -> kindof w ir = KIR ->
@@ -1058,6 +1018,47 @@ Proof.
   destruct (fold_ok (fun w v => ml_add_hook w ir v) (filter (fun x => negb (mem x (kids w ir))) new) w1) as [w2 ok2].
   cbn [fst] in *.
   eapply MI_step; [exact H2|]. apply mq_set_kids. rewrite (MI_kind w w2 ir H2). exact Gi.
+Qed.
+
+(* insert / append are slice assignments: nobody leaves, v enters unless it is a member already *)
+Lemma ml_insert_mq : forall w ir i v, kindof w v = KMod -> kindof w ir = KIR -> ModParOK w ->
+  mq w (fst (ml_insert w ir i v)).
+Proof.
+  intros w ir i v Kv Ki M. unfold ml_insert. cbv zeta.
+  apply (ml_assign_MI w ir _ M Ki). intros x Hx Hnx.
+  apply assign_slice_incl in Hx. destruct Hx as [Hx|Hx]; [contradiction|].
+  destruct Hx as [Hx|[]]. subst x. exact Kv.
+Qed.
+
+Lemma ml_append_mq : forall w ir v, kindof w v = KMod -> kindof w ir = KIR -> ModParOK w ->
+  mq w (fst (ml_append w ir v)).
+Proof. intros. unfold ml_append. apply ml_insert_mq; assumption. Qed.
+
+Lemma mod_append_mq : forall w ir v, ModParOK w -> is_k w ir KIR = true -> is_k w v KMod = true ->
+  MI w (ret w (flagged (ml_append w ir v))).
+Proof.
+  intros w ir v M Ki Kv. apply is_k_kind in Ki. apply is_k_kind in Kv.
+  apply ret_flagged; [apply MI_refl; exact M|].
+  eapply MI_step; [apply MI_refl; exact M|]. apply ml_append_mq; assumption.
+Qed.
+
+Lemma mod_insert_mq : forall w ir i v, ModParOK w -> is_k w ir KIR = true -> is_k w v KMod = true ->
+  MI w (ret w (flagged (ml_insert w ir i v))).
+Proof.
+  intros w ir i v M Ki Kv. apply is_k_kind in Ki. apply is_k_kind in Kv.
+  apply ret_flagged; [apply MI_refl; exact M|].
+  eapply MI_step; [apply MI_refl; exact M|]. apply ml_insert_mq; assumption.
+Qed.
+
+Lemma fold_append_MI : forall w ir vs, ModParOK w -> kindof w ir = KIR ->
+  (forall v, In v vs -> kindof w v = KMod) ->
+  MI w (fst (fold_ok (fun w v => ml_append w ir v) vs w)).
+Proof.
+  intros w ir vs M Ki Kv. apply fold_ok_inv; [|apply MI_refl; exact M].
+  intros w' v Hv HI. eapply MI_step; [exact HI|]. apply ml_append_mq.
+  - rewrite (MI_kind w w' v HI). apply Kv. exact Hv.
+  - rewrite (MI_kind w w' ir HI). exact Ki.
+  - destruct HI as [_ P]. exact P.
 Qed.
 
 (* all module-list operations *)
@@ -1733,18 +1734,6 @@ Proof.
   apply seqp_mk; [|exact Hs]. apply seq_cache_add, seq_set_par, Hw.
 Qed.
 
-Lemma seqp_ml_insert : forall w1 w2 ir i v, seq w1 w2 -> seqp (ml_insert w1 ir i v) (ml_insert w2 ir i v).
-Proof.
-  intros w1 w2 ir i v H. unfold ml_insert.
-  destruct (seqp_ml_add_hook w1 w2 ir v H) as [Hw Hs].
-  destruct (ml_add_hook w1 ir v) as [x1 o1], (ml_add_hook w2 ir v) as [x2 o2]. cbn [fst snd] in *.
-  apply seqp_mk; [|exact Hs].
-  apply (seq_set_kids_at x1 x2 ir (fun l => insert_at (clamp_insert i (length l)) v l)). exact Hw.
-Qed.
-
-Lemma seqp_ml_append : forall w1 w2 ir v, seq w1 w2 -> seqp (ml_append w1 ir v) (ml_append w2 ir v).
-Proof. intros w1 w2 ir v H. unfold ml_append. rewrite (seq_kids _ _ H). apply seqp_ml_insert. exact H. Qed.
-
 Lemma seqp_ml_assign : forall w1 w2 ir new, seq w1 w2 -> seqp (ml_assign w1 ir new) (ml_assign w2 ir new).
 Proof.
   intros w1 w2 ir new H. unfold ml_assign. cbv zeta. rewrite (seq_kids _ _ H).
@@ -1763,6 +1752,14 @@ Proof.
   apply seqp_mk; [|rewrite Hs1, Hs2; reflexivity].
   rewrite (seq_kids _ _ Hw2). apply seq_set_kids. exact Hw2.
 Qed.
+
+Lemma seqp_ml_insert : forall w1 w2 ir i v, seq w1 w2 -> seqp (ml_insert w1 ir i v) (ml_insert w2 ir i v).
+Proof.
+  intros w1 w2 ir i v H. unfold ml_insert. cbv zeta. rewrite (seq_kids _ _ H). apply seqp_ml_assign. exact H.
+Qed.
+
+Lemma seqp_ml_append : forall w1 w2 ir v, seq w1 w2 -> seqp (ml_append w1 ir v) (ml_append w2 ir v).
+Proof. intros w1 w2 ir v H. unfold ml_append. rewrite (seq_kids _ _ H). apply seqp_ml_insert. exact H. Qed.
 
 (* attribute setters *)
 Lemma seq_setn_f : forall a1 a2 b (f : node -> node), seq a1 a2 ->
